@@ -63,6 +63,7 @@ def fmtExc : Exc → String
   | .connTimeout => "UpnpConnectionTimeoutError"
   | .valueError => "RAW:ValueError"
   | .overflowError => "RAW:OverflowError"
+  | .parseError => "RAW:ParseError"
   | .other => "?"
 
 def parseExc (t : String) : Exc :=
@@ -72,6 +73,7 @@ def parseExc (t : String) : Exc :=
   else if t = "UpnpConnectionTimeoutError" then .connTimeout
   else if t = "RAW:ValueError" then .valueError
   else if t = "RAW:OverflowError" then .overflowError
+  else if t = "RAW:ParseError" then .parseError
   else match t.splitOn ":" with
     | ["UpnpResponseError", n] => (match n.toNat? with | some k => .responseError k | none => .other)
     | _ => .other
